@@ -431,8 +431,8 @@ func (e *Exec) visitInstr(fr *frame, instr ssa.Instruction) continuation {
 		if ln < 0 || cp < ln {
 			e.rtPanic("makeslice: len out of range")
 		}
-		if cp > e.P.cfg.MaxAlloc {
-			panic(pathEnd{endCut, fmt.Sprintf("allocation of %d elements exceeds MaxAlloc", cp)})
+		if cp > 1<<26 {
+			panic(pathEnd{endCut, fmt.Sprintf("allocation of %d elements exceeds the engine's sanity limit", cp)})
 		}
 		tElt := instr.Type().Underlying().(*types.Slice).Elem()
 		s := make(Slice, cp)
